@@ -573,3 +573,9 @@ def run(ctx):
         n += 1
     ctx.count("runs_analysed", n)
     r6_acceptance(ctx, repo)
+    # generational elitism and "N designs, none repeated" rest on the selection key and the truncation pipeline (C03 rules)
+    from . import c03
+    from .c18 import SubCtx
+    sub = SubCtx(ctx, "R5", prefix="environmental selection: ")
+    c03.r1_cmp(sub, repo)
+    c03.r2_truncate(sub, repo)
